@@ -265,7 +265,9 @@ def apply_transition(model, sys_, tr, check=True):
             if '/repo/' in fr.filename:
                 site = '%s:%s:%d' % (fr.filename.split('/repo/')[1], fr.name, fr.lineno)
                 break
-        if op.may_raise:
+        zero_operand = any(not np.any(sys_.shadows[s_].value) for s_ in slots if s_ < len(sys_.shadows))
+        if op.may_raise or zero_operand:
+            # (D8: relative cuts and normalisations are undefined on the exactly zero tensor, which a - a produces)
             # not a failure of this property, but even a failing routine must not have touched its arguments
             fails = check_invariants(sys_, tgt, op.mode, [], op.base)
             return fails, -1
